@@ -207,6 +207,7 @@ struct Transmission {
   bool        batched = false;  // TCP frame flushed together with earlier frames in one send(): queued at an unknown earlier moment
   long        decision_seq = 0; // when the server for this transmission was chosen (TCP: when the connection was opened)
   int         ref_fail[8] = { 0 }; // reference health table (from the public server-state callbacks) at send time
+  int         order[8] = { 0 }, norder = 0; // configured servers in configuration order when the destination was decided
   int64_t     last_fail_us[8] = { 0 };
 };
 
@@ -229,6 +230,7 @@ struct VSock {
   long               connect_seq = 0;
   bool               conn_fail_logged = false;
   int                ref_fail_at_connect[8] = { 0 };
+  int                order_at_connect[8] = { 0 }, norder_at_connect = 0;
   int64_t            last_fail_at_connect[8] = { 0 };
   std::vector<std::pair<size_t, int>> tcp_pkts; // (end offset in instream, packet serial) // FS_SEND_WOULDBLOCK happened and nothing was written since
 };
@@ -293,6 +295,7 @@ struct World {
   int         deviations = 0, nreq = 0, nforge = 0;
   std::vector<std::pair<std::string, int>> server_state; // (server string, success)
   int         ref_fail[8] = { 0 };
+  int         cfg_order[8] = { 0 }, cfg_norder = 0; // current server list (indices k of 10.0.0.(k+1)) in configuration order
   int64_t     ref_last_fail_us[8] = { 0 };
   std::vector<std::string> sockstate_log;
   int         cur_ev = -1;
